@@ -62,9 +62,14 @@ static void _varintExternalBigEndianCopyToEncodingLittleEndian(
         dst[0] = src[4];
         break;
 
-    case VARINT_WIDTH_64B:
-        *(uint64_t *)dst = __builtin_bswap64(*(uint64_t *)src);
+    case VARINT_WIDTH_64B: {
+        /* memcpy: 'dst' and 'src' may be unaligned buffer offsets */
+        uint64_t tmp;
+        memcpy(&tmp, src, sizeof(tmp));
+        tmp = __builtin_bswap64(tmp);
+        memcpy(dst, &tmp, sizeof(tmp));
         break;
+    }
 
     default:
         assert(NULL);
